@@ -1144,6 +1144,11 @@ func (p *Prog) xNewFrom(list bool) {
 
 // one view/deriver/observer of the extended API on list register r; `class` narrows the choice to a property's operations
 func (p *Prog) xListOp(r int, class string) {
+	if n := p.m.list(r).Count(); n > 0 && p.r.chance(0.06) && (class == "foreach" || class == "map" || class == "filter" || class == "reduce") {
+		// the callback panics at one of its calls and the caller recovers: the receiver is as it was, and stays usable
+		p.do(&Op{Name: "LCallbackPanics", R: r, I: int64(p.r.Intn(n)), S: int64(p.r.Intn(6))})
+		return
+	}
 	k := pickOf(p.r, xKinds)
 	pr, pk := p.randPred()
 	switch class {
@@ -1260,10 +1265,114 @@ func (p *Prog) rejectedInsertion() {
 	}
 }
 
+// A mutator called with a NATIVE Go slice as the value ([]any / []int / []string of scalars): parseVal turns it into a NEW list. In the
+// model that is two steps - NewList of the scalars, then the mutator with the new list as operand -, and both are traced: the state
+// after the first step is observed on the implementation side with a stand-in list of the same content (container identities are
+// structural in the canonical form), the state after the second with the list that was really stored.
+func (p *Prog) doNative(kind string, r int, i int64, key string) {
+	m := p.m
+	if p.broken || m.hung {
+		return
+	}
+	k := 1 + p.r.Intn(3)
+	lits := make([]*V, k)
+	vals := make([]any, k)
+	ops := make([]Operand, k)
+	homog := p.r.chance(0.5)
+	first := pickOf(p.r, []*V{vint(1), vstr("s"), vfloat(2.5), vbool(true)})
+	for j := range lits {
+		if homog {
+			lits[j] = first
+		} else {
+			lits[j] = pickOf(p.r, finiteScalars)
+		}
+		vals[j] = lits[j].toAny()
+		ops[j] = Operand{V: lits[j]}
+	}
+	var arg any = vals
+	if homog {
+		arg = typedSlice(vals)
+	}
+	h1 := canonEnv(append(append([]any{}, m.vars...), at.NewList(vals...)), nil)
+	var stored any
+	panicked := try(func() {
+		switch kind {
+		case "LReplace":
+			l := m.list(r)
+			l.Replace(int(i), arg)
+			stored = l.Get(int(i))
+		case "LInsert":
+			l := m.list(r)
+			l.Insert(int(i), arg)
+			stored = l.Get(int(i))
+		case "LAdd":
+			l := m.list(r)
+			l.Add(arg)
+			stored = l.Get(l.Count() - 1)
+		case "OSet":
+			o := m.object(r)
+			o.Set(key, arg)
+			stored = o.Get(key)
+		}
+	})
+	if panicked {
+		m.fail("%s with a native slice as the value panicked", kind)
+		p.broken = true
+		return
+	}
+	if _, ok := stored.(at.List); !ok {
+		m.fail("%s with a native slice as the value did not store a list (got %T)", kind, stored)
+		p.broken = true
+		return
+	}
+	m.vars = append(m.vars, stored)
+	nr := len(m.vars) - 1
+	var txt strings.Builder
+	h2 := canonEnv(m.vars, &txt)
+	o1 := &Op{Name: "NewList", Vals: ops}
+	var o2 *Op
+	switch kind {
+	case "LReplace", "LInsert":
+		o2 = &Op{Name: kind, R: r, I: i, Vals: []Operand{{IsReg: true, Reg: nr}}}
+	case "LAdd":
+		o2 = &Op{Name: "LAdd", R: r, Vals: []Operand{{IsReg: true, Reg: nr}}}
+	default:
+		o2 = &Op{Name: "OSet", R: r, Vals: []Operand{{V: vstr(key)}, {IsReg: true, Reg: nr}}}
+	}
+	p.ops = append(p.ops, o1, o2)
+	p.trace = append(p.trace, fmt.Sprintf("((XRet (XO (OV (HL 0)))), %d)", h1), fmt.Sprintf("((XRet (XO ONone)), %d)", h2))
+	p.lines = append(p.lines, fmt.Sprintf("(native slice %v becomes a new list v%d)", vals, nr), fmt.Sprintf("%s with that native slice as the value | %s", o2.String(), txt.String()))
+	p.tags[kind+"Native"] = true
+	m.verifyHeld(kind + " with a native slice")
+}
+
+func (p *Prog) nativeMutation() {
+	ls, os := p.listRegs(), p.objRegs()
+	if len(ls) > 0 && (len(os) == 0 || p.r.chance(0.7)) {
+		r := pickOf(p.r, ls)
+		n := p.m.list(r).Count()
+		switch {
+		case n > 0 && p.r.chance(0.6):
+			p.doNative("LReplace", r, int64(p.r.Intn(n)), "")
+		case p.r.chance(0.5):
+			p.doNative("LInsert", r, int64(p.r.Intn(n+1)), "")
+		default:
+			p.doNative("LAdd", r, 0, "")
+		}
+	} else if len(os) > 0 {
+		r := pickOf(p.r, os)
+		p.doNative("OSet", r, 0, p.key(p.m.object(r)))
+	}
+}
+
 // a valid-domain mutation of a random live container (the boundary behaviour of the mutators belongs to C05/C06)
 func (p *Prog) xMutate() {
 	if p.r.chance(0.05) {
 		p.rejectedInsertion()
+		return
+	}
+	if p.r.chance(0.05) {
+		p.nativeMutation()
 		return
 	}
 	ls, os := p.listRegs(), p.objRegs()
@@ -1343,12 +1452,103 @@ func xProgram(r *R, prof string) *Prog {
 	return p
 }
 
+// sortProgram (C17x): homogeneous string / int / float lists (NaN-free, non-empty) on which Sort and Reverse are interleaved with
+// mutations that keep them homogeneous - a Sort after an Insert in the middle, a Reverse of a sorted list, a Sort of a list that was
+// sorted before; aliases (the same list stored in a holder) see every result
+func sortProgram(p *Prog, r *R, nops int) {
+	pools := [][]*V{
+		{vint(0), vint(1), vint(-7), vint(42), vint(3), vint(3), vint(math.MaxInt64), vint(math.MinInt64), vint(-1), vint(9), vint(2), vint(4), vint(5)},
+		{vstr(""), vstr("a"), vstr("b"), vstr("ab"), vstr("B"), vstr("é"), vstr("zz"), vstr("a"), vstr("~"), vstr("10"), vstr("9")},
+		// (only one of the two zeros: sort.Float64s may leave 0 and -0, which compare equal, in either order - the value-level
+		// stream of C17 compares sorted floats up to that; the heap hash is bit-exact)
+		{vfloat(0), vfloat(1.5), vfloat(-1.5), vfloat(math.Inf(1)), vfloat(math.Inf(-1)), vfloat(2), vfloat(1.5), vfloat(5e-324), vfloat(-2.25), vfloat(-5e-324)},
+	}
+	var lists []int
+	var poolOf = map[int][]*V{}
+	newL := func() {
+		pool := pickOf(r, pools)
+		k := 1 + r.Intn(9)
+		var vs []Operand
+		for i := 0; i < k; i++ {
+			vs = append(vs, Operand{V: pickOf(r, pool)})
+		}
+		p.do(&Op{Name: "NewList", Vals: vs})
+		lists = append(lists, len(p.m.vars)-1)
+		poolOf[len(p.m.vars)-1] = pool
+	}
+	newL()
+	newL()
+	p.do(&Op{Name: "NewObject", Vals: []Operand{{V: vstr("alias")}, {IsReg: true, Reg: lists[0]}}})
+	for len(p.ops) < nops && !p.broken {
+		l := pickOf(r, lists)
+		pool := poolOf[l]
+		n := p.m.list(l).Count()
+		switch r.Intn(12) {
+		case 0, 1, 2, 3:
+			p.do(&Op{Name: "LSort", R: l})
+		case 4, 5:
+			p.do(&Op{Name: "LReverse", R: l})
+		case 6, 7:
+			p.do(&Op{Name: "LInsert", R: l, I: int64(r.Intn(n + 1)), Vals: []Operand{{V: pickOf(r, pool)}}})
+		case 8:
+			p.do(&Op{Name: "LReplace", R: l, I: int64(r.Intn(n)), Vals: []Operand{{V: pickOf(r, pool)}}})
+		case 9:
+			p.do(&Op{Name: "LAdd", R: l, Vals: []Operand{{V: pickOf(r, pool)}, {V: pickOf(r, pool)}}})
+		case 10:
+			if n > 1 {
+				if r.chance(0.5) {
+					p.do(&Op{Name: "LDelete", R: l, Idxs: []int64{int64(r.Intn(n))}})
+				} else {
+					p.do(&Op{Name: "LPop", R: l})
+				}
+			}
+		default:
+			if len(lists) < 4 && r.chance(0.5) {
+				newL()
+			} else {
+				p.do(&Op{Name: "LSlice", R: l})
+			}
+		}
+	}
+}
+
 // equalsProgram (C07x): containers and twins of them (equal, not identical), Equals in both orders again and again, with
 // shape-preserving edits in between (Replace / Set of an existing key keep lengths and key sets, so comparisons fail at an
 // element, not at the count) and the same edit applied to both sides to regain equality
 func equalsProgram(p *Prog, r *R, nops int) {
 	for len(p.m.vars) == 0 {
 		p.newContainer() // (NewListOf with a negative count panics and creates nothing)
+	}
+	if r.chance(0.25) {
+		// one container instance in several consecutive slots of one side; the other side holds it in the first of them and an
+		// unequal (or equal but distinct) container in a later one
+		p.do(&Op{Name: "NewList", Vals: []Operand{p.scalar(), p.scalar()}})
+		c1 := len(p.m.vars) - 1
+		p.rebuild(p.m.vars[c1], 0)
+		c2 := len(p.m.vars) - 1
+		if r.chance(0.7) {
+			p.do(&Op{Name: "LAdd", R: c2, Vals: []Operand{p.scalar()}})
+		}
+		k := int64(2 + r.Intn(3))
+		p.do(&Op{Name: "NewListOf", Vals: []Operand{{IsReg: true, Reg: c1}}, I: k})
+		a := len(p.m.vars) - 1
+		var vs []Operand
+		for i := int64(0); i < k; i++ {
+			if i == k-1 || (i > 0 && r.chance(0.3)) {
+				vs = append(vs, Operand{IsReg: true, Reg: c2})
+			} else {
+				vs = append(vs, Operand{IsReg: true, Reg: c1})
+			}
+		}
+		p.do(&Op{Name: "NewList", Vals: vs})
+		b := len(p.m.vars) - 1
+		p.do(&Op{Name: "Equals", R: a, A: b})
+		p.do(&Op{Name: "Equals", R: b, A: a})
+		p.do(&Op{Name: "NewObject", Vals: []Operand{{V: vstr("x")}, {IsReg: true, Reg: c1}, {V: vstr("y")}, {IsReg: true, Reg: c1}}})
+		oa := len(p.m.vars) - 1
+		p.do(&Op{Name: "NewObject", Vals: []Operand{{V: vstr("x")}, {IsReg: true, Reg: c1}, {V: vstr("y")}, {IsReg: true, Reg: c2}}})
+		p.do(&Op{Name: "Equals", R: oa, A: len(p.m.vars) - 1})
+		p.do(&Op{Name: "Equals", R: len(p.m.vars) - 1, A: oa})
 	}
 	p.twin()
 	for len(p.ops) < nops && !p.broken {
@@ -1433,6 +1633,10 @@ func xProgramBody(p *Prog, r *R, prof string) {
 		equalsProgram(p, r, nops)
 		return
 	}
+	if prof == "C17x" {
+		sortProgram(p, r, nops)
+		return
+	}
 	p.newContainer()
 	p.newContainer()
 	step := func() {
@@ -1478,7 +1682,29 @@ func xProgramBody(p *Prog, r *R, prof string) {
 			}
 		case "C18x":
 			if len(ls) > 0 {
-				p.xListOp(pickOf(r, ls), "agg")
+				l := pickOf(r, ls)
+				// now and then the list is sorted or reversed in between (Sort keeps the elements of the first element's kind only:
+				// the aggregates are about the list as it is afterwards)
+				if n := p.m.list(l).Count(); n > 0 && r.chance(0.15) {
+					t0 := p.m.list(l).TypeOf(0)
+					zeros, nan := 0, false
+					for i := 0; i < n; i++ {
+						if f, ok := p.m.list(l).Get(i).(float64); ok {
+							if f == 0 && math.Signbit(f) {
+								zeros |= 1
+							} else if f == 0 {
+								zeros |= 2
+							}
+							nan = nan || math.IsNaN(f)
+						}
+					}
+					if (t0 == at.TypeInt || t0 == at.TypeFloat) && zeros != 3 && !nan && r.chance(0.6) {
+						p.do(&Op{Name: "LSort", R: l})
+					} else {
+						p.do(&Op{Name: "LReverse", R: l})
+					}
+				}
+				p.xListOp(l, "agg")
 			}
 		case "C15x":
 			if len(ls) > 0 && (len(os) == 0 || r.chance(0.6)) {
@@ -1555,6 +1781,8 @@ func xProgramBody(p *Prog, r *R, prof string) {
 			}
 		} else if r.chance(0.42) {
 			p.xMutate()
+		} else if r.chance(0.1) {
+			p.derive() // results of SubList / Concat / Merge / Pluck / Clone / Keys / Values take part like any other container
 		} else {
 			step()
 		}
@@ -1575,6 +1803,45 @@ func (p *Prog) storable(v Operand, into int) bool {
 	acc := map[any]bool{}
 	reach(p.m.vars[v.Reg], acc)
 	return !acc[p.m.vars[into]]
+}
+
+// derive: one deriving operation of Heap.v on random live containers (full range / valid arguments)
+func (p *Prog) derive() {
+	ls, os := p.listRegs(), p.objRegs()
+	var plain []int
+	for _, x := range ls {
+		if !isDerived(p.m.vars[x]) {
+			plain = append(plain, x)
+		}
+	}
+	switch p.r.Intn(6) {
+	case 0, 1:
+		if len(ls) > 0 {
+			r := pickOf(p.r, ls)
+			n := p.m.list(r).Count()
+			s := 0
+			if n > 0 {
+				s = p.r.Intn(n + 1)
+			}
+			p.do(&Op{Name: "LSubList", R: r, S: int64(s), E: int64(n)})
+		}
+	case 2:
+		if len(ls) > 0 && len(plain) > 0 {
+			p.do(&Op{Name: "LConcat", R: pickOf(p.r, ls), A: pickOf(p.r, plain)})
+		}
+	case 3:
+		if len(os) > 0 {
+			p.do(&Op{Name: "OMerge", R: pickOf(p.r, os), A: pickOf(p.r, os)})
+		}
+	case 4:
+		if len(os) > 0 {
+			p.do(&Op{Name: pickOf(p.r, []string{"OKeys", "OValues"}), R: pickOf(p.r, os)})
+		}
+	default:
+		if len(p.m.vars) > 0 && len(p.m.vars) < 12 {
+			p.do(&Op{Name: "Clone", R: p.r.Intn(len(p.m.vars))})
+		}
+	}
 }
 
 // twin: a second container with the same top-level content as an existing one (equal, not identical)
@@ -1673,10 +1940,10 @@ type xStream struct {
 
 var xStreams = map[string]xStream{
 	"C02": {"C02x", 25, 100}, "C07": {"C07x", 20, 120}, "C09": {"C09x", 8, 150}, "C12": {"C12x", 25, 120}, "C13": {"C13x", 20, 120},
-	"C14": {"C14x", 15, 150}, "C15": {"C15x", 4, 100}, "C16": {"C16x", 20, 100}, "C18": {"C18x", 25, 120},
+	"C14": {"C14x", 15, 150}, "C15": {"C15x", 4, 100}, "C16": {"C16x", 20, 100}, "C17": {"C17x", 20, 150}, "C18": {"C18x", 25, 120},
 }
 
-var xProfiles = []string{"C02x", "C07x", "C09x", "C12x", "C13x", "C14x", "C15x", "C16x", "C18x"}
+var xProfiles = []string{"C02x", "C07x", "C09x", "C12x", "C13x", "C14x", "C15x", "C16x", "C17x", "C18x"}
 
 func init() {
 	for _, p := range xProfiles {
